@@ -659,6 +659,17 @@ func runBlocking(prop string, scen []func(g *rand.Rand) (string, []string, error
 			}
 			var rp struct{ Case bscenario `json:"case"` }
 			json.Unmarshal(b, &rp)
+			if rp.Case.Name == "lockstep" {
+				why, _, err := scenLockstep(rand.New(rand.NewSource(rp.Case.Seed)), cfg.modelPath)
+				if err != nil {
+					return err
+				}
+				res.Histories = 1
+				if why != "" {
+					res.Mismatches = append(res.Mismatches, &Mismatch{Index: -1, Op: "lock-step with Wait.v", Why: why})
+				}
+				return nil
+			}
 			for i, nm := range names {
 				if nm == rp.Case.Name {
 					g = rand.New(rand.NewSource(rp.Case.Seed))
@@ -673,6 +684,36 @@ func runBlocking(prop string, scen []func(g *rand.Rand) (string, []string, error
 				}
 			}
 			return nil
+		}
+		if prop == "C12" {
+			// witness of the listed finding: CLIENT UNBLOCK of a client that is not blocked must answer 0
+			w, err := newBWorld(1)
+			if err != nil {
+				return err
+			}
+			ur, err := w.do("CLIENT", "UNBLOCK", w.clients[0].id)
+			w.close()
+			res.Histories++
+			if err == nil && ur.Int != 0 {
+				why := fmt.Sprintf("CLIENT UNBLOCK %s for a connected client that is not blocked replied %s (Redis: 0)", "<id>", ur.String())
+				known := false
+				for _, lf := range listed {
+					if lf.ID == "client-unblock-reply-not-blocked" {
+						res.KnownActive[lf.ID] = lf.Text + " [" + why + "]"
+						res.KnownHits[lf.ID]++
+						known = true
+					}
+				}
+				if !known {
+					os.MkdirAll(cfg.replayDir, 0o755)
+					path := filepath.Join(cfg.replayDir, fmt.Sprintf("%s-seed%d-unblock-idle.json", prop, cfg.seed))
+					b, _ := json.MarshalIndent(map[string]any{"property": prop, "kind": "blocking-schedule", "seed": cfg.seed, "why": why,
+						"case": bscenario{Name: "unblock-idle", Seed: 0, Log: w.log}}, "", " ")
+					os.WriteFile(path, b, 0o644)
+					res.Mismatches = append(res.Mismatches, &Mismatch{Index: -1, Op: "unblock-idle", Why: why})
+					res.Replays = append(res.Replays, path)
+				}
+			}
 		}
 		for i := 0; i < n && len(res.Mismatches) < 3; i++ {
 			k := i % len(scen)
@@ -719,9 +760,21 @@ func runBlocking(prop string, scen []func(g *rand.Rand) (string, []string, error
 }
 
 func init() {
-	streams["C11"] = runBlocking("C11",
+	c11scen := runBlocking("C11",
 		[]func(g *rand.Rand) (string, []string, error){scenStolen, scenTimeoutTie, scenMultiKey, scenFifo, scenOtherProducers, scenRandom, scenRandom, scenRandom},
 		[]string{"stolen-wakeup", "timeout-tie", "multi-key", "fifo", "other-producers", "random", "random", "random"}, 40, 800)
+	streams["C11"] = func(cfg runCfg, res *Result) error {
+		if os.Getenv("VERIF_ONLY_LOCKSTEP") == "" {
+			if err := c11scen(cfg, res); err != nil || cfg.replay != "" {
+				return err
+			}
+		}
+		n := 14
+		if cfg.tier == "thorough" {
+			n = 400
+		}
+		return runC11Lockstep(cfg, res, n)
+	}
 	specialReplay["C11"] = true
 	streams["C12"] = runBlocking("C12",
 		[]func(g *rand.Rand) (string, []string, error){scenTimeouts, scenUnblock, scenStaleUnblock,
